@@ -84,6 +84,14 @@ def isElfMagic (v : View) (ptr : Nat) : Option Bool := do
   let b3 ← v.u8 (ptr + 63)
   pure (b3 = 0x46)
 
+/-- `cond && buffer[ptr + 60..63] == "\x7fELF"` (the bytes are only read when `cond` holds) -/
+def elfMagicIf (v : View) (cond : Bool) (ptr : Nat) : Option Bool :=
+  if cond then isElfMagic v ptr else some false
+
+/-- the call of `imports_obj_find_code_from_symbol` on a member, made only for ELF members -/
+def findCodeIf (v : View) (cond : Bool) (sym : Name) : Option (Option Elf.Code) :=
+  if cond then Elf.findCode v sym else some none
+
 /-- member walk of `imports_ar_find_code_from_symbol` -/
 def findLoop (v : View) (sym : Name) : Nat → Nat → Option (Option Member)
   | 0, _ => some none
@@ -94,8 +102,8 @@ def findLoop (v : View) (sym : Name) : Nat → Nat → Option (Option Member)
       | none => pure none
       | some size => do
         let differs ← identDiffers v ptr 0 lookupIdent
-        let magic ← if differs ∧ size ≥ 4 then isElfMagic v ptr else pure false
-        let hit ← if magic then Elf.findCode (v.sub (ptr + 60) size) sym else pure none
+        let magic ← elfMagicIf v (differs && decide (size ≥ 4)) ptr
+        let hit ← findCodeIf (v.sub (ptr + 60) size) magic sym
         match hit with
         | some c =>
           pure (some { code := { c with fileOffset := c.fileOffset + ptr + 60 }, objOff := ptr + 60, objSize := size })
